@@ -314,26 +314,25 @@ class DataFlow(FlowBase):
             if ev == rd.UNKNOWN or gv == ev:
                 continue
             bad[k] = {"expected": ev, "offered": gv}
-        if not bad:
-            return []
-        var = sorted(bad)[0]
-        b = bad[var]
-        kind = "leaked_variable" if b["expected"] == "$absent" else (
-            "missing_variable" if b["offered"] == "$absent" else "wrong_value")
-        sig = {"task_is_join": self.ref.d.is_join(offer["id"])}
-        if kind == "wrong_value":
-            ev, gv = b["expected"], b["offered"]
-            bnd = run[2].get(var) if run[2] else None
-            sig["variable_republished"] = bool(bnd and bnd[2])
-            sig["offered_is_deep_merge_of_older_dict"] = bool(
-                isinstance(ev, dict) and isinstance(gv, dict) and set(ev) < set(gv)
-                and all(gv[k] == ev[k] for k in ev))
-        if kind == "wrong_value" and run[2] is not None:
-            # was the offered value an older version that the expected one superseded?
-            binding = run[2].get(var)
-            sig["stale_over_newer"] = self._is_older(g, binding, b["offered"])
-        return [{"kind": kind, "sig": sig,
-                 "detail": {"task": offer["id"], "route": offer["route"], "diff": bad}}]
+        out = []
+        for var in sorted(bad):
+            b = bad[var]
+            kind = "leaked_variable" if b["expected"] == "$absent" else (
+                "missing_variable" if b["offered"] == "$absent" else "wrong_value")
+            sig = {"task_is_join": self.ref.d.is_join(offer["id"])}
+            if kind == "wrong_value":
+                ev, gv = b["expected"], b["offered"]
+                bnd = run[2].get(var) if run[2] else None
+                sig["variable_republished"] = bool(bnd and bnd[2])
+                sig["offered_is_deep_merge_of_older_dict"] = bool(
+                    isinstance(ev, dict) and isinstance(gv, dict) and set(ev) < set(gv)
+                    and all(gv[k] == ev[k] for k in ev))
+                if run[2] is not None:
+                    # was the offered value an older version that the expected one superseded?
+                    sig["stale_over_newer"] = self._is_older(g, run[2].get(var), b["offered"])
+            out.append({"kind": kind, "sig": sig,
+                        "detail": {"task": offer["id"], "route": offer["route"], "variable": var, "diff": bad}})
+        return out
 
     @staticmethod
     def _is_older(g, binding, offered_value):
